@@ -1,0 +1,83 @@
+// Copyright 2025 StreamNative, Inc.
+//
+// Licensed under the Apache License, Version 2.0 (the "License");
+// you may not use this file except in compliance with the License.
+// You may obtain a copy of the License at
+//
+//     http://www.apache.org/licenses/LICENSE-2.0
+//
+// Unless required by applicable law or agreed to in writing, software
+// distributed under the License is distributed on an "AS IS" BASIS,
+// WITHOUT WARRANTIES OR CONDITIONS OF ANY KIND, either express or implied.
+// See the License for the specific language governing permissions and
+// limitations under the License.
+
+package server
+
+import (
+	"strings"
+
+	"google.golang.org/grpc/codes"
+	"google.golang.org/grpc/status"
+
+	"github.com/oxia-db/oxia/common/constant"
+	"github.com/oxia-db/oxia/proto"
+	"github.com/oxia-db/oxia/server/kv"
+)
+
+// The first segment of the internal keys ("__oxia").
+var internalKeysSegment = strings.TrimSuffix(constant.InternalKeyPrefix, "/")
+
+// validateWriteRequest checks a write request coming from a client, before it is added to the log.
+//
+// Every entry of the log is applied by each replica of the shard, and by the leader only after the entry
+// was committed: a request that fails to be applied can neither be taken back nor skipped. Whatever can be
+// told to be invalid by looking at the request alone has to be refused here, with an error for the client.
+func validateWriteRequest(req *proto.WriteRequest) error {
+	for _, put := range req.GetPuts() {
+		if strings.HasPrefix(put.GetKey(), constant.InternalKeyPrefix) {
+			return status.Errorf(codes.InvalidArgument, "oxia: key %q is reserved for internal use", put.GetKey())
+		}
+		if len(put.GetSequenceKeyDelta()) > 0 {
+			if put.PartitionKey == nil {
+				return status.Error(codes.InvalidArgument, kv.ErrMissingPartitionKey.Error())
+			}
+			if put.GetSequenceKeyDelta()[0] == 0 {
+				return status.Error(codes.InvalidArgument, kv.ErrSequenceDeltaIsZero.Error())
+			}
+		}
+	}
+
+	for _, del := range req.GetDeletes() {
+		if strings.HasPrefix(del.GetKey(), constant.InternalKeyPrefix) {
+			return status.Errorf(codes.InvalidArgument, "oxia: key %q is reserved for internal use", del.GetKey())
+		}
+	}
+
+	for _, dr := range req.GetDeleteRanges() {
+		if dr.GetStartInclusive() == "" && dr.GetEndExclusive() == "" {
+			return status.Error(codes.InvalidArgument, "oxia: delete range without boundaries")
+		}
+		if !rangeExcludesInternalKeys(dr.GetStartInclusive(), dr.GetEndExclusive()) {
+			return status.Errorf(codes.InvalidArgument, "oxia: delete range [%q, %q) includes keys reserved for internal use",
+				dr.GetStartInclusive(), dr.GetEndExclusive())
+		}
+	}
+
+	return nil
+}
+
+// rangeExcludesInternalKeys tells whether no internal key can be part of the range [start, end).
+//
+// In the order of the keys of a shard (compare.CompareWithSlash), the internal keys are the ones that contain
+// a '/' and whose first segment is "__oxia": they come after all the keys without a '/', and in between the keys
+// whose first segment sorts before "__oxia" and the keys whose first segment sorts after it.
+func rangeExcludesInternalKeys(start, end string) bool {
+	endSegment, _, endHasSlash := strings.Cut(end, "/")
+	if !endHasSlash || endSegment < internalKeysSegment {
+		return true
+	}
+
+	startSegment, _, startHasSlash := strings.Cut(start, "/")
+	return startHasSlash && startSegment > internalKeysSegment
+}
